@@ -32,6 +32,7 @@ type HarnessSpec struct {
 	ReplayTags  string
 	ReplayEnv   []string
 	PanicIsViolation bool
+	Solver           string            // primary solver for this harness (default: the run's)
 	ModelOnlyLabels  map[string]string // assertion label -> why its counterexamples cannot be realised by the native harness
 }
 
@@ -83,6 +84,7 @@ type HarnessResult struct {
 	Assumes    int
 	Witnesses  []*Violation
 	FeasUnknown int
+	Fallbacks   map[string]int
 }
 
 func newHarnessResult(spec *HarnessSpec) *HarnessResult {
@@ -117,6 +119,15 @@ func (R *HarnessResult) crossDisagree(in *Interp, label, solver string) {
 	R.mu.Lock()
 	defer R.mu.Unlock()
 	R.CrossDis = append(R.CrossDis, fmt.Sprintf("%s/%s: %s says sat where primary says unsat", R.Spec.Name, label, solver))
+}
+
+func (R *HarnessResult) noteFallback(label string) {
+	R.mu.Lock()
+	defer R.mu.Unlock()
+	if R.Fallbacks == nil {
+		R.Fallbacks = map[string]int{}
+	}
+	R.Fallbacks[label]++
 }
 
 func (R *HarnessResult) addUnknown(in *Interp, label string) {
@@ -232,7 +243,11 @@ func runHarness(L *Loaded, spec *HarnessSpec, opts *Options, nworkers int) *Harn
 			if opts.LogDir != "" {
 				logp = fmt.Sprintf("%s/%s.%d.smt2", opts.LogDir, spec.Name, id)
 			}
-			sess, err := NewSession(opts.Solver, opts.TimeoutMS, logp)
+			solver := opts.Solver
+			if spec.Solver != "" {
+				solver = spec.Solver
+			}
+			sess, err := NewSession(solver, opts.TimeoutMS, logp)
 			if err != nil {
 				R.mu.Lock()
 				R.Aborts["solver start: "+err.Error()]++
